@@ -78,6 +78,13 @@ func oracleC08(f *sessionFam, w *World, res *Result) []Violation {
 					w.probe("switch_for_scripted_candidate_whose_probe_was_answered")
 				}
 			}
+			for _, e := range w.evs(a, "upgrading") {
+				// (the same seen from the server: 'upgrading' is emitted when a candidate's probe is answered; the
+				// client may collect the pong only later)
+				if e.Seq < firstChangeSeq {
+					ok = true
+				}
+			}
 			if !ok {
 				c := ""
 				if len(unprobed) > 0 {
